@@ -418,7 +418,7 @@ func propC10(w *World, r *Report) {
 		for _, b := range ci.fn.Blocks {
 			for _, in := range b.Instrs {
 				if d, ok := in.(*ssa.Defer); ok && d.Call.StaticCallee() == abort {
-					if c, ok := d.Call.Args[0].(*ssa.Call); ok && c.Call.StaticCallee() == ctor && c.Block() == b {
+					if c, ok := d.Call.Args[0].(*ssa.Call); ok && ctorCallIn(ci.fn, c, ctor) != nil && c.Block() == b {
 						// nothing that can return sits between construction and the defer
 						okDefer = true
 					}
